@@ -16,9 +16,7 @@ RULE = ("groups on the real code: an n-d interpolator (data Ix1..Ix6 static and 
         "lane j of the n-d result must be identical (exact at Q, bit for bit at f64), which also checks the multi-index <-> lane flattening — "
         "and (b) the same n-d interpolator with every other lane (values and boundary conditions) replaced at random: lane j unchanged. "
         "The n-d cases also go through the model correspondence. non-trivial = data with >= 2 lanes")
-PARTIAL = ["Individual boundaries: lane independence holds by construction of solve_for_k_individual (one single-lane solve per lane); the "
-           "theorems cover the shared-diagonal path (C08_spline_solve) and Linear/Bilinear; the flattening of the trailing multi-index is "
-           "checked by the runs"]
+PARTIAL = ["the flattening of the trailing multi-index of the real ndarray into the lane number (row-major) is checked by the runs, not modelled"]
 ASSUMPTIONS = []
 
 
